@@ -174,8 +174,7 @@ func c14Docs(c *fx.Ctx, visit func(doc []ev.E, family string)) {
 			visit(hdr(ev.EList(), ev.EStr("ab"), one[0], one[1]), "skip")
 		}
 	}
-	for _, l := range []int{1, 3, 7} {
-		id := strings.Repeat("a", l)
+	for _, id := range []string{"a", "aaa", "aaaaaaa", "é", "aé", "éñü", "日本語x", strings.Repeat("a", 127), strings.Repeat("é", 64)} {
 		visit(hdr(ev.EList(), ev.EMarker(id), ev.EPInt(1), ev.EEnd()), "ident-marker")
 		visit(hdr(ev.EList(), ev.EMarker(id), ev.EPInt(1), ev.ERef(id), ev.EEnd()), "ident-ref")
 		visit(hdr(ev.EList(), ev.ERef(id), ev.EMarker(id), ev.EPInt(1), ev.EEnd()), "ident-forward-ref")
